@@ -54,6 +54,10 @@ func genFan(t *rapid.T, o fanOpts) (sim.FanSpec, map[int]int) {
 		kinds = []string{"hwmon", "hwmon", "hwmon", "file"}
 	}
 	f := sim.FanSpec{Kind: rapid.SampledFrom(kinds).Draw(t, "kind")}
+	// script based (cmd) fans cost several process executions per cycle: a small, tier dependent share
+	if o.kinds == nil && rare(t, "cmdFan", envInt("VERIF_CMD_SHARE", 1)) {
+		f.Kind = "cmd"
+	}
 	if o.neverStop != nil {
 		f.NeverStop = *o.neverStop
 	} else {
@@ -102,6 +106,9 @@ func genFan(t *rapid.T, o fanOpts) (sim.FanSpec, map[int]int) {
 		}
 	} else if !o.alwaysRpm {
 		f.NoRpm = rapid.IntRange(0, 4).Draw(t, "noRpm") == 0
+	}
+	if f.Kind == "cmd" {
+		o.noQuant = true // script based fans: plain integer store
 	}
 	// PWM map
 	var eff map[int]int
@@ -180,3 +187,14 @@ func allowedWrites(m map[int]int, lo, hi int) map[int]bool {
 }
 
 func sortInts(a []int) { sort.Ints(a) }
+
+// rare is true with probability about n/64. (rapid's integer generators are biased towards small
+// values and bounds, so "IntRange(0,999) < k" is far more likely than k/1000; SampledFrom over a
+// slice is close to uniform.)
+func rare(t *rapid.T, label string, n int) bool {
+	opts := make([]bool, 64)
+	for i := 0; i < n && i < 64; i++ {
+		opts[(7+i*11)%64] = true
+	}
+	return rapid.SampledFrom(opts).Draw(t, label)
+}
